@@ -400,8 +400,8 @@ type ccase struct {
 	RelMode bool     `json:"relmode"` // txtar-x run inside the output directory without -C
 }
 
-var nameAtoms = []string{"a", "b.txt", "c", ".hid", ".d", "sub", "x y", "é", "a.b", "-q", "..x", "z-- q --", "UP", "0"}
-var lineAtoms = []string{"hello", "", "-- a --", "--a --", "-- a--", "-- --", "-- sub/x --", ">", ">-- a --", " -- a --", "-- a -- ", "unquote a", "x -- a --", "-- a --\r", "tab\there", "é", "-- é --"}
+var nameAtoms = []string{"a", "b.txt", "c", ".hid", ".d", "sub", "x y", "é", "a.b", "-q", "..x", "z-- q --", "UP", "0", "100%.txt", "a%20b", "%s", "%!", "%d%n"}
+var lineAtoms = []string{"hello", "", "-- a --", "--a --", "-- a--", "-- --", "-- sub/x --", ">", ">-- a --", " -- a --", "-- a -- ", "unquote a", "x -- a --", "-- a --\r", "tab\there", "é", "-- é --", "%s %d %v", "100%", "-- %s --", "%!(EXTRA)"}
 
 func genTree(r *common.RNG) ccase {
 	var c ccase
@@ -430,6 +430,30 @@ func genTree(r *common.RNG) ccase {
 			isDir[strings.Join(segs[:j], "/")] = true
 		}
 		c.Files = append(c.Files, tfile{Path: p, Data: genContent(r)})
+	}
+	// regularly: two or three files that need quoting, in nested directories, with distinct
+	// contents of different lengths (results of earlier Quote calls must survive later ones)
+	if r.Chance(1, 2) {
+		k := 2 + r.Intn(2)
+		for i := 0; i < k; i++ {
+			p := fmt.Sprintf("q%d/n%%d/%s", i, common.Pick(r, []string{"m.txt", "100%.txt", "%s", "x y"}))
+			if i == 0 {
+				p = fmt.Sprintf("q%d/%s", i, common.Pick(r, []string{"m.txt", "a%20b"}))
+			}
+			if seen[p] || seen[strings.Split(p, "/")[0]] || isDir[p] {
+				continue
+			}
+			seen[p] = true
+			segs := strings.Split(p, "/")
+			for j := 1; j < len(segs); j++ {
+				isDir[strings.Join(segs[:j], "/")] = true
+			}
+			body := fmt.Sprintf("file %d %%s\n-- marker%d --\n", i, i) + strings.Repeat(fmt.Sprintf("line %d of %d%%\n", i, i), 1+3*i)
+			if r.Chance(1, 3) {
+				body += "-- tail --"
+			}
+			c.Files = append(c.Files, tfile{Path: p, Data: []byte(body)})
+		}
 	}
 	if r.Chance(1, 4) {
 		d := common.Pick(r, nameAtoms) + "/" + common.Pick(r, nameAtoms)
@@ -973,6 +997,9 @@ func (rn *runner) cliCase(c ccase, tag string) {
 	if bytes.Contains(r.archive, []byte("unquote ")) {
 		res.Count("cli:has-unquote-line")
 	}
+	if n := bytes.Count(r.archive, []byte("\nunquote ")) + b2i(bytes.HasPrefix(r.archive, []byte("unquote "))); n >= 2 {
+		res.Count("cli:two-or-more-quoted-files")
+	}
 	in := map[string]string{"kind": "cli", "case_json": mustJSON(c)}
 	if hostile {
 		in["kind"] = "cli-hostile"
@@ -1114,6 +1141,13 @@ func (rn *runner) rootDirCase() {
 	}
 }
 
+func b2i(b bool) int {
+	if b {
+		return 1
+	}
+	return 0
+}
+
 func b01(b bool) string {
 	if b {
 		return "1"
@@ -1190,7 +1224,7 @@ func enumerate(sigma []string, maxLen int, f func([]string)) {
 }
 
 var segSmall = []string{".", "..", "", "a", "b", ".h"}
-var segBig = []string{".", "..", "", "a", "b", ".h", `a\b`, "...", "..a", "a.", " ", "é", "target", "parent", "sib", `..\a`, "x y"}
+var segBig = []string{".", "..", "", "a", "b", ".h", `a\b`, "...", "..a", "a.", " ", "é", "target", "parent", "sib", `..\a`, "x y", "%s", "a%20b", "100%.txt", "%!", "%d%n"}
 
 func genEntries(r *common.RNG) []entry {
 	n := 1 + r.Intn(4)
